@@ -526,9 +526,12 @@ def install(prefix="pyairtouch"):
                 _set(mod, name, SxTable(val))
             elif type(val) is str:
                 _set(mod, name, ConstStr(val))
+            elif name == "INSTANCE" and type(val).__module__.startswith(prefix):
+                wrap_int_dicts(val, prefix)
 
 
 def uninstall():
+    unwrap_int_dicts()
     while _INSTALLED:
         mod, name, had, old = _INSTALLED.pop()
         if had:
@@ -539,3 +542,66 @@ def uninstall():
             except AttributeError:
                 pass
     unpatch_enum()
+
+
+# ----------------------------------------------------------------------------- dicts looked up with symbolic keys
+
+class SymKeyDict(dict):
+    """dict with concrete int keys whose lookups accept a symbolic key: branches on
+    key == k for the keys present (|keys|+1 classes instead of one per feasible value)."""
+
+    def _find(self, key):
+        if isinstance(key, SymInt):
+            for k in dict.keys(self):
+                if key == k:
+                    return k, True
+            return None, False
+        return key, dict.__contains__(self, key)
+
+    def get(self, key, default=None):
+        k, ok = self._find(key)
+        return dict.__getitem__(self, k) if ok else default
+
+    def __getitem__(self, key):
+        k, ok = self._find(key)
+        if not ok:
+            raise KeyError(key)
+        return dict.__getitem__(self, k)
+
+    def __contains__(self, key):
+        return self._find(key)[1]
+
+
+_WRAPPED_DICTS: list = []   # (owner object, attribute name, original dict)
+
+
+def wrap_int_dicts(root, prefix="pyairtouch", _seen=None, _depth=0):
+    """Replace plain int-keyed dict attributes reachable from root (objects of the package only)."""
+    if _seen is None:
+        _seen = set()
+    if id(root) in _seen or _depth > 6:
+        return
+    _seen.add(id(root))
+    d = getattr(root, "__dict__", None)
+    if not isinstance(d, dict):
+        return
+    for name, val in list(d.items()):
+        if type(val) is dict and val and all(type(k) is int for k in val):
+            _WRAPPED_DICTS.append((root, name, val))
+            setattr(root, name, SymKeyDict(val))
+            for v in val.values():
+                if type(v).__module__.startswith(prefix):
+                    wrap_int_dicts(v, prefix, _seen, _depth + 1)
+        elif type(val).__module__.startswith(prefix) and not isinstance(val, type):
+            wrap_int_dicts(val, prefix, _seen, _depth + 1)
+
+
+def unwrap_int_dicts():
+    while _WRAPPED_DICTS:
+        owner, name, orig = _WRAPPED_DICTS.pop()
+        cur = getattr(owner, name, None)
+        if isinstance(cur, SymKeyDict):
+            # keep registrations made meanwhile
+            orig.clear()
+            orig.update(dict(cur))
+        setattr(owner, name, orig)
